@@ -27,6 +27,7 @@ def check(ctx):
     isolation(ctx, P)
     orders(ctx, P)
     globals_(ctx, P)
+    keyed_tables(ctx, P)
     ctx.assume("user-supplied callables (baulking functions, routing functions, custom distributions) are deterministic given the two streams")
     ctx.assume("Schedule.initialise() re-initialises the shared object: sufficient for sequential reuse; two live simulations sharing one schedule are outside the property's wording")
 
@@ -269,6 +270,26 @@ def orders(ctx, P):
                               "random numbers are drawn while iterating a dictionary whose key order is not fixed by the sorted class names", loc(lp))
 
 
+def keyed_tables(ctx, P, ob=None):
+    """per-class tables are built by looking each class NAME up (`{c: src[c] for c in names}`); pairing the sorted list of class names positionally with the
+    values of a user dictionary (`zip(names, d.values())`) gives every class somebody else's entry unless the user happened to write the dictionary in
+    sorted order"""
+    ob = ob or ctx.ob("KEYED", "no per-class table is built by zipping class names with a dictionary's values/items (order of a user dict is not the sorted order)")
+    n = 0
+    for ci, fn in P.all_functions():
+        for x in ast.walk(fn):
+            if isinstance(x, ast.Call) and isinstance(x.func, ast.Name) and x.func.id == "zip" and len(x.args) >= 2:
+                n += 1
+                texts = [unparse(a) for a in x.args]
+                names = [t for t in texts if "class_names" in t or "customer_class_names" in t]
+                dictorder = [t for a, t in zip(x.args, texts) if isinstance(a, ast.Call) and isinstance(a.func, ast.Attribute) and a.func.attr in ("values", "items", "keys") and t not in names]
+                ob.ok("%s:%s" % (P.func_name(fn), unparse(x)[:50]), "%s: %s" % (P.func_name(fn), unparse(x)[:80]))
+                if names and dictorder:
+                    ctx.violation(ob, "R10.iteration-order", P.func_name(fn), unparse(x)[:100], "names-zipped-with-dict-order",
+                                  "the sorted class names are paired by position with `%s`, whose order is the user's insertion order: classes get each other's entries" % dictorder[0], loc(x))
+    return n
+
+
 def globals_(ctx, P):
     ob = ctx.ob("GLOB", "no process-global state is written at run time except ciw.rng (seed) and the decimal precision (exact Simulation constructor)")
     n = 0
@@ -287,6 +308,37 @@ def globals_(ctx, P):
                             continue
                         ctx.violation(ob, "R10.global-state", q, unparse(x)[:80], "global-write", "process-global state is modified at run time", loc(x))
     ctx.floor("recognised global writes", n, 2)
+    # module-level objects: anything built at import time other than the documented two (the generator `rng`, the record type) is shared by every
+    # Network / Simulation of the process -- a default router, distribution or schedule kept there carries state from one run into the next
+    for m in P.modules.values():
+        for st in m.tree.body:
+            if isinstance(st, (ast.Assign, ast.AnnAssign)) and getattr(st, "value", None) is not None:
+                tg = [unparse(t) for t in (st.targets if isinstance(st, ast.Assign) else [st.target])]
+                v = st.value
+                if (m.name, tg) in (("ciw", ["rng"]), ("ciw.data_record", ["DataRecord"])):
+                    ob.ok("%s:%s" % (m.name, tg[0]))
+                    continue
+                if isinstance(v, (ast.Call, ast.List, ast.Dict, ast.Set, ast.ListComp, ast.DictComp, ast.SetComp)) and not (
+                        all(nm in getattr(P, "module_constants", {}).get(m.name, {}) for nm in tg)):
+                    if isinstance(v, ast.Call) and call_name(v) in ("namedtuple", "frozenset", "tuple", "TypeVar"):
+                        continue
+                    if not isinstance(v, ast.Call):
+                        # a container: state only if something in the package writes into it
+                        from ..desugar import MUTATORS
+                        touched = False
+                        for m2 in P.modules.values():
+                            for y in ast.walk(m2.tree):
+                                if isinstance(y, ast.Subscript) and isinstance(y.ctx, (ast.Store, ast.Del)) and unparse(y.value).split(".")[-1] in tg:
+                                    touched = True
+                                if isinstance(y, ast.Call) and isinstance(y.func, ast.Attribute) and y.func.attr in MUTATORS and unparse(y.func.value).split(".")[-1] in tg:
+                                    touched = True
+                                if isinstance(y, ast.Global) and set(y.names) & set(tg):
+                                    touched = True
+                        if not touched:
+                            continue
+                    ctx.violation(ob, "R10.global-state", m.name, unparse(st)[:80], "module-level-object",
+                                  "an object created at import time is shared by all simulations in the process: if it holds run-time state (a router, a distribution, a "
+                                  "schedule, a cache) a second simulation continues where the first one stopped", loc(st))
     # class-level mutable attributes shared between instances
     for c in P.classes.values():
         for st in c.node.body:
